@@ -40,7 +40,7 @@ CONTRACTS = {
         returns=OBJ("Graph"),
         # a selected name must be a declared output, wherever it sits in the argument list; no name twice
         may_raise={"ValueError": True},
-        ensures=["result is not self", "result._selected is names", "result._nodes is self._nodes",
+        ensures=["result is not self", "result._selected == names", "result._nodes is self._nodes",
                  "all(n in self.outputs for n in names)"],
         modifies=[],
     ),
